@@ -128,8 +128,7 @@ def run(chk, prog):
                     out.append((e["var"], e["method"], tuple(args), n))
         return out
     # output block of the loop = then-branch of the `outstep > 0 && ...` test
-    outs = [x for x in A.walk(loop["body"]) if x["k"] == "IfStmt" and "outstep" in A.show(x["cond"]) and "simulationstep" in A.show(x["cond"])]
-    A.require(len(outs) == 1, "main: output block of the loop not found")
+    outs = [mm.output_block()]
     ob = outs[0]
     ob_ids = {y["id"] for y in A.walk(ob["then"])}
     fin = [x for x in A.walk(mainf["body"]) if x["k"] == "IfStmt" and x["line"] > loop["line"] and x["id"] not in loop_ids and
